@@ -5,6 +5,11 @@ from checklib import Prop, ROOT, guarded
 
 # one representative per character class the rules distinguish (the property's quantifier) plus the line feed
 ALPHABET = "aA1-.@_\n"
+# second exhaustive scope: what CPython's character classes distinguish beyond ASCII (`\d`/`\w`/`\s`/`.` are Unicode-aware on
+# str patterns): two non-ASCII decimal digits (Arabic-Indic three, full-width seven), a non-ASCII lower and upper case letter,
+# a non-ASCII space, carriage return - combined with the ASCII letter, digit, dot and dash.  The documented languages are ASCII
+# ("lowercase letter" = a-z, "decimal integers" = 0-9 runs, as the unchanged patterns have it); the spec predicates decide.
+UNI_ALPHABET = "a1.-\u0663\uff17\u00e9\u00c9\u00a0\r"
 PREDS = ("short", "version", "type")
 
 
@@ -55,7 +60,8 @@ class C14(Prop):
     thorough_budget = 120000
     exhaustive = True
     rule = ("predicates: EVERY string of length <= 6 (quick) / <= 8 (thorough) over the 8-symbol alphabet {a,A,1,-,.,@,_,LF} through the real "
-            "is_valid_release_short/_version/_type, a Python transcription of the documented languages (oracle) and the Lean model and Lean "
+            "is_valid_release_short/_version/_type, and EVERY string of length <= 4 / <= 6 over a 10-symbol alphabet of the classes CPython distinguishes "
+            "beyond ASCII {a,1,.,-,U+0663,U+FF17,e-acute,E-acute,NBSP,CR}, against a Python transcription of the documented languages (oracle) and the Lean model and Lean "
             "specification (correspondence), plus random longer strings over a wider alphabet; round trip: generated (short, version, type"
             "[, base product]) with dashed/undashed shorts, numeric/free-form versions, every known release type, targeted cases derived "
             "from the type table; create: one-part corruptions, None/empty base-product parts; parse: token-built identifiers (correspondence). "
@@ -133,13 +139,15 @@ class C14(Prop):
         for which, s in (("short", "f\n"), ("type", "ga\n"), ("version", "1\n"), ("version", "a\nb")):
             out.append({"op": "pred", "args": {"which": which, "s": s}})
         out.append(self.rt_case("my-prod", "1.0", "ga"))
-        # (1b) the exhaustive enumeration, in 9 blocks (the empty string, then by first character).  NB the pipeline stops
-        # consuming cases once more than 50 failures (known ones included) have accumulated at a 2000-case boundary, so the
-        # blocks come early and the generators below keep the number of cases inside F9/F15 small (each is a known failure).
+        # (1b) the exhaustive enumeration over the property's 8-symbol alphabet, in 9 blocks (the empty string, then by first
+        # character), and over the 10-symbol Unicode-class alphabet (length <= 4 quick / <= 6 thorough), by first character
         maxlen = 8 if tier == "thorough" else 6
         out.append({"op": "pred_block", "args": {"alphabet": ALPHABET, "prefix": "", "n": 0}})
         for a in ALPHABET:
             out.append({"op": "pred_block", "args": {"alphabet": ALPHABET, "prefix": a, "n": maxlen - 1}})
+        umax = 6 if tier == "thorough" else 4
+        for a in UNI_ALPHABET:
+            out.append({"op": "pred_block", "args": {"alphabet": UNI_ALPHABET, "prefix": a, "n": umax - 1}})
         # (2) round trips
         n_rt = budget * 5 // 10
         out.extend(self.targeted_from_table(types))
@@ -161,7 +169,7 @@ class C14(Prop):
             n = rng.randint(7, 24)
             base = rng.choice(["", "f", "fedora-", "1.", "23", "a-", "rhel-7"])
             s = base + "".join(rng.choice(wide if rng.random() < 0.3 else "abz09-.") for _ in range(n))
-            if n_nl < 9 and rng.random() < 0.2:     # a few long strings in the F15 region (the blocks cover it exhaustively)
+            if n_nl < 40 and rng.random() < 0.2:     # some long strings in the F15 region (the blocks cover it exhaustively)
                 n_nl += 1
                 k = rng.choice([len(s), len(s), rng.randint(0, len(s))])
                 s = s[:k] + "\n" + s[k:]
@@ -171,7 +179,7 @@ class C14(Prop):
     SHORT_SEGS = ["f", "fedora", "rhel", "a1", "x", "prod", "my", "z9z", "ga", "fast", "eus", "updates", "testing", "e4s", "b2c3"]
     NUM_VERSIONS = ["1", "23", "7.1", "1.2.3", "0", "10.0.0.1", "007", "2015.12"]
     FREE_VERSIONS = ["Rawhide", "rawhide", "x", "_", "A.1", "v 1", ".", "x.y", "a1", "n1.2", "é", "R_2", "eus", "ga", "updates", "fast",
-                     "testing", "xga", "afast", "tus", "els", "aus", "e4s", "b٣"]
+                     "testing", "xga", "afast", "tus", "els", "aus", "e4s", "b٣", "٣x", "７server", "٣", "É1", "\u00a01", "a\rb"]
 
     def gen_short(self, rng, dashed):
         n = rng.choice([2, 2, 3, 4]) if dashed else 1
@@ -205,8 +213,8 @@ class C14(Prop):
         type_ = types[k % len(types)]            # every known type round-robin
         dashed = rng.random() < 0.5
         if dashed and type_ == "ga":
-            # the F9 region: keep a bounded number of witnesses (each is a known failure)
-            if f9[0] >= 12:
+            # the F9 region: a bounded number of witnesses is enough (each is a known failure; C14_F9_region proves all fail)
+            if f9[0] >= 60:
                 dashed = False
             else:
                 f9[0] += 1
@@ -243,8 +251,8 @@ class C14(Prop):
     def gen_create(self, rng, types, i):
         f9 = [10 ** 9]
         s, v, t = self.gen_part(rng, types, i, f9)
-        bad_short = ["", "F", "1f", "f_", "-f", "f-", "f--x", "f.x", "f@x", "f x", "é", "f\n\n", "\nf", "fA"]
-        bad_version = ["", "1.", ".1"[::-1], "1..2", "1a", "1-2", "1 ", "1\n\n", "a\nb", "0x1", "1.2.", "٣", "12@"]
+        bad_short = ["", "F", "1f", "f_", "-f", "f-", "f--x", "f.x", "f@x", "f x", "é", "f\n\n", "\nf", "fA", "f٣", "f-７", "fé", "f\r", "f\u00a0"]
+        bad_version = ["", "1.", ".1"[::-1], "1..2", "1a", "1-2", "1 ", "1\n\n", "a\nb", "0x1", "1.2.", "٣", "12@", "1.٣", "7７", "2.７.1", "1\r"]
         bad_type = bad_short + ["GA", "ga ", "updates_testing"]
         mode = i % 8
         bp = None
